@@ -17,7 +17,7 @@ func init() {
 	core.Register(&core.Prop{
 		ID:    "C14",
 		Level: "exploration",
-		Rule: "PRNG include graphs (acyclic, depth <= 4, up to 7 files) of generated templates laid out in nested temporary directories; every file is independently: on disk only / in the cache only (ParseTemplateAndCache) / both with different content (disk must win) / missing; include arguments are literals, variables and filtered expressions; the top-level template is parsed with an absolute path, a relative path or no path (cwd), and includes occur inside loops, conditionals and captures after assigns. The output is compared with the reference model inlining the graph (files end with nothing, LF, CRLF or blank lines). Cache lifecycle: an includer parsed before its partial is registered, then the partial registered five times under one path (long, short, empty, longer) - every render of the old and of a freshly parsed includer inserts what the latest registration renders. Failure cases: missing file at any depth, nil/int/array/map argument, render error / syntax error / unknown tag inside an included file at any depth, a directory or a path through a regular file. Non-trivial = at least one include is executed; distinct = distinct (graph sources, presence states, path mode).",
+		Rule: "PRNG include graphs (acyclic, depth <= 4, up to 7 files) of generated templates laid out in nested temporary directories; every file is independently: on disk only / in the cache only (ParseTemplateAndCache) / both with different content (disk must win) / missing; include arguments are literals, variables and filtered expressions; the top-level template is parsed with an absolute path, a relative path or no path (cwd), and includes occur inside loops, conditionals and captures after assigns. The output is compared with the reference model inlining the graph (files end with nothing, LF, CRLF or blank lines). Cache lifecycle: an includer parsed before its partial is registered, then the partial registered five times under one path (long, short, empty, longer) - every render of the old and of a freshly parsed includer inserts what the latest registration renders. Failure cases: missing file at any depth, nil/int/array/map argument, render error / syntax error / unknown tag / break or continue outside a loop inside an included file at any depth (also when the include itself stands in a loop), a directory or a path through a regular file. Non-trivial = at least one include is executed; distinct = distinct (graph sources, presence states, path mode).",
 		Exhaustive: func(string) bool { return false },
 		Assumptions: []string{
 			"included files are resolved relative to the directory of the top-level template's parse path at every depth, also when the including file itself lies in a sub-directory (the engine parses an included file at its includer's location; the statement says: the path the template being rendered was parsed with, and: exactly the output that rendering the content inline gives)",
@@ -93,12 +93,20 @@ func c14Case(c *core.Ctx, r *core.Rand, i int, caseDir string) {
 			f.prog = nil // an empty file is a file too: it renders to nothing, and on disk it still wins over the cache
 		}
 		if k == failAt {
-			f.fail = r.Range(1, 3)
+			f.fail = r.Range(1, 4)
 		}
 		f.src = gen.DefaultStyle.Source(f.prog)
 		switch f.fail {
 		case 1:
 			f.prog = append(f.prog, gen.Out{E: gen.Filt{X: gen.Lit{V: gen.Int(1)}, Name: "divided_by", Args: []gen.Expr{gen.Lit{V: gen.Int(0)}}}})
+			f.src = gen.DefaultStyle.Source(f.prog)
+		case 4:
+			// break / continue outside any loop of the file itself (possibly inside a loop of an includer)
+			var ctl gen.Node = gen.Break{}
+			if r.Bool() {
+				ctl = gen.Continue{}
+			}
+			f.prog = append(f.prog, gen.If{Conds: []gen.Expr{gen.Lit{V: gen.Bool(true)}}, Bodies: [][]gen.Node{{gen.Text{S: "x"}, ctl}}}, gen.Text{S: "after"})
 			f.src = gen.DefaultStyle.Source(f.prog)
 		case 2:
 			f.src += "{{ 'unterminated }}"
